@@ -258,3 +258,191 @@ def in_block(ctx, e, n, region, shape, k):
     we = (ee - w) / ne
     hn = (no - s) / nn
     return And(gt(e, w + j * we), lt(e, w + (j + 1) * we), gt(n, s + i * hn), lt(n, s + (i + 1) * hn))
+
+
+# ----------------------------------------------------------------------------
+# sklearn: StandardScaler / LinearRegression / Ridge as used by verde.base.least_squares
+# ----------------------------------------------------------------------------
+REGRESSION_LOG = []  # one record per regressor.fit: dict(X, y, w, alpha, coef, scaler)
+SCALER_LOG = []
+SCALE_CONTRACT = {"exact": True}
+
+
+class StubStandardScaler:
+    """StandardScaler(copy, with_mean=False, with_std=True).fit_transform(X):
+    scale_[j] = s_j > 0 with s_j^2 = var(X[:, j]) (population variance), or 1 for a
+    constant column; returns X / scale_, written into X iff copy=False."""
+
+    def __init__(self, copy=True, with_mean=True, with_std=True):
+        if with_mean or not with_std:
+            raise E.HarnessError("StandardScaler only modelled with with_mean=False, with_std=True")
+        self.copy = copy
+
+    def fit_transform(self, X, y=None):
+        Xo = X
+        X = np.asarray(X)
+        if X.ndim != 2:
+            raise ValueError("Expected 2D array")
+        n, m = X.shape
+        eng = E.ENGINE
+        scale = np.empty(m, dtype=object)
+        for j in range(m):
+            s = eng.new("scale")
+            eng.add(s > 0)
+            if SCALE_CONTRACT["exact"]:
+                col = [T(X[i, j]) for i in range(n)]
+                mean = sum(col) / n
+                var = sum((c - mean) * (c - mean) for c in col) / n
+                var = z3.simplify(var)
+                eng.add(z3.If(var == 0, s == 1, s * s == var))
+            scale[j] = SymReal(s)
+        self.scale_ = scale
+        out = X if not self.copy else X.astype(object).copy()
+        if out.dtype != object:
+            raise E.HarnessError("in-place scaling of a non-object array in the symbolic run")
+        for j in range(m):
+            for i in range(n):
+                out[i, j] = out[i, j] / scale[j]
+        SCALER_LOG.append({"input": Xo, "output": out, "scale": scale, "copy": self.copy})
+        return out
+
+
+class _StubRegr:
+    alpha_default = None
+
+    def __init__(self, alpha=None, fit_intercept=True, **kw):
+        if fit_intercept:
+            raise E.HarnessError("regression only modelled with fit_intercept=False")
+        self.alpha = alpha
+        self.fit_intercept = fit_intercept
+
+    def fit(self, X, y, sample_weight=None):
+        X = np.asarray(X)
+        y = np.asarray(y)
+        n, m = X.shape
+        if y.shape != (n,):
+            raise ValueError("Found input variables with inconsistent numbers of samples: [%d, %s]" % (n, y.shape))
+        if sample_weight is not None:
+            sample_weight = np.asarray(sample_weight)
+            if sample_weight.shape != (n,):
+                raise ValueError("sample_weight.shape == %s, expected (%d,)!" % (sample_weight.shape, n))
+        eng = E.ENGINE
+        coef = np.empty(m, dtype=object)
+        for j in range(m):
+            coef[j] = SymReal(eng.new("coef"))
+        Xt = [[T(X[i, j]) for j in range(m)] for i in range(n)]
+        yt = [T(v) for v in y]
+        wt = [T(v) for v in sample_weight] if sample_weight is not None else [z3.RealVal(1)] * n
+        resid = [sum(Xt[i][k] * coef[k].t for k in range(m)) - yt[i] for i in range(n)]
+        eqs = []
+        for j in range(m):
+            h = sum(wt[i] * Xt[i][j] * resid[i] for i in range(n))
+            if self.alpha is not None:
+                h = h + T(self.alpha) * coef[j].t
+            eqs.append(h)
+            eng.add(h == 0)
+        self.coef_ = coef
+        REGRESSION_LOG.append({"X": X, "y": y, "w": sample_weight, "alpha": self.alpha, "coef": coef, "normal_eqs": eqs, "kind": type(self).__name__})
+        return self
+
+
+class StubLinearRegression(_StubRegr):
+    """LinearRegression(fit_intercept=False).fit(X, y, sample_weight): coef_ satisfies
+    the normal equations X^T W X p = X^T W y (necessary and sufficient for a
+    minimiser of the convex weighted least-squares objective)."""
+
+    def __init__(self, fit_intercept=True, **kw):
+        _StubRegr.__init__(self, alpha=None, fit_intercept=fit_intercept)
+
+
+class StubRidge(_StubRegr):
+    "Ridge(alpha, fit_intercept=False): X^T W X p + alpha p = X^T W y"
+
+    def __init__(self, alpha=1.0, fit_intercept=True, **kw):
+        _StubRegr.__init__(self, alpha=alpha, fit_intercept=fit_intercept)
+
+
+def regression_globals():
+    import sys
+    import verde.base.least_squares  # noqa: F401
+
+    mod = sys.modules["verde.base.least_squares"]
+    return {(mod, "StandardScaler"): StubStandardScaler, (mod, "LinearRegression"): StubLinearRegression, (mod, "Ridge"): StubRidge}
+
+
+def reset_logs():
+    del REGRESSION_LOG[:]
+    del SCALER_LOG[:]
+    StubKDTree.instances[:] = []
+    INTERP_LOG[:] = []
+    _INTERP_IDS.clear()
+
+
+# ----------------------------------------------------------------------------
+# scipy.interpolate: LinearNDInterpolator / CloughTocher2DInterpolator / NearestNDInterpolator
+# ----------------------------------------------------------------------------
+INTERP = z3.Function("interp", z3.IntSort(), z3.RealSort(), z3.RealSort(), z3.RealSort())
+INTERP_LOG = []
+_INTERP_IDS = {}
+
+
+class _StubInterp:
+    """An interpolator is an uninterpreted function of (class, points, values,
+    options) evaluated at the query: equal arguments give equal results
+    (congruence) and, for pairwise-distinct points, f(p_i) = v_i (the documented
+    interpolation property of the three scipy classes)."""
+
+    kind = "?"
+
+    def __init__(self, points, values, **kw):
+        self.points = np.asarray(points, dtype=object)
+        self.values = np.asarray(values, dtype=object)
+        self.kw = dict(kw)
+        if self.points.ndim != 2 or self.points.shape[1] != 2:
+            raise ValueError("points must be (n, 2)")
+        if self.values.shape != (self.points.shape[0],):
+            raise ValueError("different number of values and points")
+        key = (self.kind, tuple(sorted((k, repr(v)) for k, v in kw.items())), tuple(z3.simplify(T(x)).sexpr() for x in self.points.ravel()), tuple(z3.simplify(T(x)).sexpr() for x in self.values.ravel()))
+        self.iid = _INTERP_IDS.setdefault(key, len(_INTERP_IDS) + 1)
+        eng = E.ENGINE
+        n = self.points.shape[0]
+        for i in range(n):
+            distinct = z3.And(*[z3.Or(T(self.points[i, 0]) != T(self.points[k, 0]), T(self.points[i, 1]) != T(self.points[k, 1])) for k in range(n) if k != i]) if n > 1 else z3.BoolVal(True)
+            eng.add(z3.Implies(distinct, INTERP(z3.IntVal(self.iid), T(self.points[i, 0]), T(self.points[i, 1])) == T(self.values[i])))
+        INTERP_LOG.append(self)
+
+    def __call__(self, *args):
+        if len(args) == 1:
+            xi = args[0]
+        else:
+            xi = args
+        e, n = xi
+        eb, nb = np.broadcast_arrays(np.asarray(e, dtype=object), np.asarray(n, dtype=object))
+        out = np.empty(eb.shape, dtype=object)
+        for idx in np.ndindex(*eb.shape):
+            out[idx] = SymReal(INTERP(z3.IntVal(self.iid), T(eb[idx]), T(nb[idx])))
+        return out
+
+
+class StubLinearND(_StubInterp):
+    kind = "LinearNDInterpolator"
+
+
+class StubCloughTocher(_StubInterp):
+    kind = "CloughTocher2DInterpolator"
+
+
+class StubNearestND(_StubInterp):
+    kind = "NearestNDInterpolator"
+
+
+def interp_globals():
+    return {
+        ("verde.scipygridder", "LinearNDInterpolator"): StubLinearND,
+        ("verde.scipygridder", "CloughTocher2DInterpolator"): StubCloughTocher,
+        ("verde.scipygridder", "NearestNDInterpolator"): StubNearestND,
+    }
+
+
+def kdtree_globals():
+    return {("verde.utils", "cKDTree"): StubKDTree}
